@@ -157,3 +157,9 @@
       (and ((_ is fn.bexpr.WithHookFn$1) f) ((_ is fn.bexpr.WithHookFn$1) g))
       (and ((_ is fn.bexpr.WithUnknownValue$1) f) ((_ is fn.bexpr.WithUnknownValue$1) g))
       (and ((_ is fn.bexpr.WithMaxExpressions$1) f) ((_ is fn.bexpr.WithMaxExpressions$1) g))))
+; ---- parsing (C10, C11): accept/reject as a function of (bytes, budget); A-ENGINE --
+(declare-fun parseAccepts (Sl.Int Int) Bool)
+(declare-fun parseTree (Sl.Int) Any)
+(declare-fun gBudget (Sl.Fn) Int)     ; the MaxExpressions budget carried by a parser option list (0 = unlimited)
+(assert (= (gBudget Sl.Fn.empty) 0))
+(assert (forall ((s Sl.Fn) (f Fn)) (! (= (gBudget (Sl.Fn.snoc s f)) (ite ((_ is fn.grammar.MaxExpressions$1) f) (fn.grammar.MaxExpressions$1.c0 f) (gBudget s))) :pattern ((gBudget (Sl.Fn.snoc s f))))))
